@@ -79,6 +79,16 @@ def documented_use(case):
     return all(t.get('buffer', True) or G.body_nsel(t['body']) <= 1 for t in G.case_templates(case))
 
 
+def _without_once(kids):
+    """the same document with every once="true" switched off (to count how often such a template would fire)"""
+    import copy
+    k = copy.deepcopy(kids)
+    for t in G.case_templates({'kids': k}):
+        if t.get('once'):
+            G.set_hints(t, once=False)
+    return k
+
+
 def positional(case):
     return any(G.path_has_pos(t['match']) for t in G.case_templates(case))
 
@@ -452,6 +462,14 @@ def compare(cases, res, stream, verb='run'):
         hits = m.pop() if m[0] == 'ok' else None
         if verb == 'spec':
             hits = None
+            # `once` templates are in the tree specification too (onceList: the first match in document order)
+            once_ts = [k for k, t in enumerate(G.case_templates(cases[i])) if t.get('once')]
+            if once_ts:
+                res.count('spec:once-template')
+                if not positional(cases[i]):
+                    _, fired0 = G.reference(dict(cases[i], kids=_without_once(cases[i]['kids'])))
+                    if any(fired0.get(k, 0) > 1 for k in once_ts):
+                        res.count('spec:once-template:several-matches')
         if hits is not None and not positional(cases[i]) and documented_use(cases[i]):
             # the model's ghost hit counters against the independent reference's firing counts
             ref, fired = G.reference(cases[i])
